@@ -12,6 +12,7 @@ CLASSIFY_PURE = [
     "spowtd.classify:match_all_storms",
     "spowtd.classify:populate_zeta_interval",
     "spowtd.classify:classify_intervals",
+    "spowtd.classify:disambiguate_matching",
     "lemma:run_counter_basic",
     "lemma:run_counter_separation",
 ]
@@ -19,8 +20,9 @@ CLASSIFY_PURE = [
 _PURE_NOTE = ("Assumed: numpy primitives as specified in pyvc/libspec.py; floats as reals; int64 does not overflow; "
               "termination of the deferred-acceptance while loop is not proved. Every SQL statement enters through an assumed "
               "contract (contracts/sql.py, keyed by the statement text read from /repo) and the Loaded(db) facts stated there; "
-              "disambiguate_matching is covered by its native contract check and the table-level bounded stand-in "
-              "(labelled bounded, not counted in `discharged`).")
+              "the C02 clause of disambiguate_matching (no blocking pair in terms of durations and start offsets) is a "
+              "`checked_natively` clause: evaluated by the bounded native run on all small many-to-many relations, never assumed "
+              "at call sites, not counted in `discharged`.")
 
 
 def _tables(pid):
@@ -31,26 +33,32 @@ def _tables(pid):
 PROPS = {
     "C01": {
         "targets": CLASSIFY_PURE,
-        "native_only": ["spowtd.classify:disambiguate_matching"],
         "witness_from": {"spowtd.classify:get_candidate_match_intervals": "spowtd.classify:match_storms"},
         "bounded": [_tables("C01")],
         "level_text": "Unbounded proof, function by function, that the array-level classification functions (run detector, "
                       "candidate intervals, match_storms, deferred-acceptance loop, uniform-step check) meet contracts written "
                       "from the property: no exception on any admitted input, one-to-one pairing, every pair shares a time "
-                      "step. Obligations are generated from the AST of the current /repo source on every run. The table level "
-                      "(SQL) is a bounded stand-in.",
+                      "step. disambiguate_matching is proved from find_stable_matching's contract (adjacency tables, candidate "
+                      "lists = reordered adjacency lists without repetition, every listed rise ranks its storms, read-back through "
+                      "the start -> stop tables: the output pairs are input pairs, no storm and no rise twice), and match_storms "
+                      "proves what it requires (no candidate pair listed twice: ghost maps pair -> rise run, storm run). "
+                      "Obligations are generated from the AST of the current /repo source on every run. The table level (SQL) is "
+                      "a bounded stand-in.",
         "level_note": _PURE_NOTE,
     },
     "C02": {
-        "targets": ["spowtd.classify:find_stable_matching", "spowtd.classify:find_stable_matching#optimal"],
-        "native_only": ["spowtd.classify:disambiguate_matching"],
+        "targets": ["spowtd.classify:find_stable_matching", "spowtd.classify:find_stable_matching#optimal",
+                    "spowtd.classify:disambiguate_matching"],
         "bounded": [_tables("C02")],
         "level_text": "Unbounded proof of the deferred-acceptance loop: loop invariants I1-I5 give at exit that no candidate "
                       "pair blocks the result (storm side by list position, rise side by preference value); and, with strict "
                       "preferences of the rises, for an ARBITRARY well-formed stable matching mu (logical variables) the invariant "
                       "'no storm has lost its mu-partner' gives that every storm does at least as well as in mu: the result is the "
-                      "storm-optimal stable matching, hence independent of the order in which storms are served. The link from list "
-                      "position to duration difference (disambiguate_matching) and the table level are bounded stand-ins.",
+                      "storm-optimal stable matching, hence independent of the order in which storms are served. In disambiguate_matching "
+                      "the pieces that connect list positions and preference values to durations and start offsets are proved "
+                      "(candidate lists sorted by duration gap with the best last, preference = -|start offset|, matched pairs are "
+                      "listed pairs); their combination into the property's clause is a `checked_natively` clause (bounded native "
+                      "run on all small many-to-many relations), as is the table level.",
         "level_note": _PURE_NOTE,
     },
     "C03": {
